@@ -38,6 +38,7 @@ void ClockDevice::configure(const std::vector<std::string>& toks) {
       && cfg.sync == 3600 && cfg.init == 5 && cfg.tmo == 1000;
   useStats = kvInt(toks, "stats", 0) != 0;
   probes = kvInt(toks, "probe", 1) != 0;
+  syncSet = kvInt(toks, "syncset", 0) != 0;
   ref.refBase = kvInt(toks, "refbase", 650000000);
   rtc.ace_time::testing::FakeClock::setNow((acetime_t)kvInt(toks, "rtc", 0));
 }
@@ -50,7 +51,9 @@ void ClockDevice::destroy() {
 
 void ClockDevice::build() {
   destroy();
-  if (opts.armC13) cfg.ref = 0;  // clock-keep: timekeeping only, whatever a shrunk CFG line says
+  // clock-keep: timekeeping only, unless the run asks for settings that arrive through the sync path (syncset=1: a
+  // distinct reference clock; a consumed valid answer is a setting like any other). A shrunk CFG line means "none".
+  if (opts.armC13) cfg.ref = syncSet ? 1 : 0;
   ace_time::clock::Clock* r = cfg.ref == 0 ? nullptr : &ref;
   ace_time::clock::Clock* b = nullptr;
   if (cfg.ref == 2) b = &ref;          // backup object is the reference object
@@ -108,8 +111,8 @@ acetime_t ClockDevice::probe(int opIndex, Verdict& v, const char* where) {
 }
 
 void ClockDevice::doSet(acetime_t val, int opIndex, Verdict& v, Coverage& cov, const char* kind) {
-  (void)kind;
-  if (val == kInvalid) cov.count("fault.user_set_sentinel");
+  if (kind[1] == 'Y') cov.count("fault.sync_set");   // "SYNC": set through the reference clock's answer
+  else if (val == kInvalid) cov.count("fault.user_set_sentinel");
   else cov.count("fault.user_set");
   if (opts.armC13) {
     // is the model currently showing val? (same-value set)
@@ -139,11 +142,22 @@ void ClockDevice::noteLoopGap() {
 void ClockDevice::doLoop(int opIndex, Verdict& v, Coverage& cov) {
   const int64_t now = t;
   if (!opts.armC14) {
+    ref.beginCall();
     primary->loop();
     if (opts.armC13) {
       // wrap / gap accounting is done by the caller
       if (keep.stallTest(now)) cov.count("fault.stall");
-      keep.onPoll(now);
+      if (ref.readCalls > 0 && ref.lastRead != kInvalid) {
+        // "After the system clock is set to T when the counter reads m0": a valid answer of the reference clock
+        // consumed by this call set the clock to that value at this instant, exactly as setNow() would have.
+        doSet(ref.lastRead, opIndex, v, cov, "SYNC");
+        if (primary->isInit() != keep.isSet()) {
+          v.fail("c13-uninit", fmt("after a sync to %ld: isInit()=%d, model says %d", (long)ref.lastRead,
+              primary->isInit() ? 1 : 0, keep.isSet() ? 1 : 0), opIndex);
+        }
+      } else {
+        keep.onPoll(now);
+      }
     }
     return;
   }
@@ -682,6 +696,33 @@ Trace genClockKeep(uint64_t seed) {
   bool bak = rng.chance(1, 2);
   tr.lines.push_back(fmt("CFG CLOCK ref=none bak=%d boot=%llu testable=1 rtc=%lld", bak ? 1 : 0,
       (unsigned long long)boot, (long long)drawRtcValue(rng)));
+  // drawn from a generator of its own, so that the traces of all other runs stay what they were
+  {
+    Rng r2(seed ^ 0x9e3779b97f4a7c15ULL);
+    if (r2.chance(1, 5)) {
+      // settings that arrive through the sync path: a distinct reference clock, answers of varying latency and
+      // value; the periods are short so that several syncs fall into one run
+      static const unsigned kS[] = {1, 2, 5, 30, 3600};
+      unsigned sp = kS[r2.below(5)];
+      // the reference's own time base; kept clear of INT32_MIN so that "true time - 5 s" is still a time
+      int64_t refbase = drawSetValue(r2);
+      if (refbase < -2147483548LL) refbase += 100;
+      tr.lines.back() = fmt("CFG CLOCK ref=distinct syncset=1 sync=%u init=%u tmo=%u bak=%d boot=%llu testable=0 rtc=%lld refbase=%lld",
+          sp, (unsigned)r2.range(1, 5), (unsigned)(r2.chance(1, 2) ? 1000 : r2.range(1, 65535)), bak ? 1 : 0,
+          (unsigned long long)boot, (long long)drawRtcValue(r2), (long long)refbase);
+      int nr = (int)r2.range(0, 12);
+      for (int k = 0; k < nr; k++) {
+        int ord = (int)r2.below(20);
+        unsigned kk = r2.below(10);
+        long long lat = r2.chance(1, 3) ? (long long)r2.range(0, 5) : (long long)r2.range(0, 3000);
+        if (kk < 5) tr.lines.push_back(fmt("REF %d VALID lat=%lld val=%lld", ord, lat, (long long)r2.range(-5, 5)));
+        else if (kk < 7) tr.lines.push_back(fmt("REF %d ABS lat=%lld val=%lld", ord, lat, (long long)drawSetValue(r2)));
+        else if (kk < 8) tr.lines.push_back(fmt("REF %d SAME lat=%lld", ord, lat));
+        else if (kk < 9) tr.lines.push_back(fmt("REF %d INVALID lat=%lld", ord, lat));
+        else tr.lines.push_back(fmt("REF %d LOST", ord));
+      }
+    }
+  }
   // swarm: which gap kinds / faults this run uses
   bool faultFree = rng.chance(3, 10);
   bool allowStall = !faultFree && rng.chance(1, 2);
